@@ -214,6 +214,55 @@ func network(h *hx.H) {
 		// a report for the removed task is dropped and disturbs nothing
 		leaf.rs.ReportSignature(ctx, leaf.colls[0].id, mkReport(t, 7))
 	}
+	// back-to-back requests: three tasks added without waiting in between must reach every collector, each
+	// once and unmodified (several frames in flight on one connection)
+	{
+		h.Res.OracleEvals++
+		base := 960000
+		for i := 0; i < 3; i++ {
+			ls.AddTask(ctx, uuid.Nil, mkReq(base+i, 1, 70+i*1111))
+		}
+		ok := wait("three back-to-back broadcast tasks did not all reach every collector", func() bool {
+			for _, c := range all {
+				n := 0
+				c.mu.Lock()
+				for _, g := range c.recv {
+					if g.task >= base && g.task < base+3 {
+						n++
+					}
+				}
+				c.mu.Unlock()
+				if n < 3 {
+					return false
+				}
+			}
+			return true
+		})
+		time.Sleep(20 * time.Millisecond)
+		for _, c := range all {
+			c.mu.Lock()
+			var seq []int
+			for _, g := range c.recv {
+				if g.task >= base && g.task < base+3 {
+					seq = append(seq, g.task-base)
+					if g.kind != 1 || g.payload != 70+(g.task-base)*1111 {
+						fail("net-request-altered", fmt.Sprintf("collector %d got back-to-back task %d as kind %d payload %d", c.n, g.task, g.kind, g.payload))
+					}
+				}
+			}
+			c.mu.Unlock()
+			// (the order of the three among themselves is not part of the property: requests are handed over by a worker pool)
+			if ok && len(seq) != 3 {
+				fail("net-broadcast-count", fmt.Sprintf("collector %d got the three back-to-back tasks as %v", c.n, seq))
+			}
+		}
+		for i := 0; i < 3; i++ {
+			ls.RemoveTask(taskID(base + i))
+		}
+		if !ok {
+			return
+		}
+	}
 	// a task whose waiter stopped reading: 12 reports pile up; removing it, adding another task and reporting to
 	// that one still work
 	t := 990000
@@ -264,6 +313,7 @@ func network(h *hx.H) {
 	}
 	h.Res.Extra["network_rounds"] = rounds
 	subscribeDuringBroadcast(h)
+	subscribeWhileTaskCurrent(h)
 	connLanes(h)
 	_ = protocol.MsgTypeReserved
 }
@@ -381,4 +431,69 @@ func connLanes(h *hx.H) {
 	if !guard(5*time.Second, func() { cancelOut(); in.cancel() }) {
 		fail("stop-hangs", "stopping a connection did not return within 5 s")
 	}
+}
+
+// slowColl: a collector that is slow to take the first request it is handed
+type slowColl struct {
+	coll
+	hold chan struct{}
+	held chan struct{}
+}
+
+func (c *slowColl) RequestQualities(ctx context.Context, m *protocol.RequestQualities) error {
+	if h := c.hold; h != nil {
+		c.hold = nil
+		c.held <- struct{}{}
+		<-h
+	}
+	return c.coll.RequestQualities(ctx, m)
+}
+
+// subscribeWhileTaskCurrent: a collector subscribes while task A is current and is slow to take A; task B is
+// broadcast meanwhile.  The collector must end up with A once and B once.
+func subscribeWhileTaskCurrent(h *hx.H) {
+	ctx := context.Background()
+	h.Res.OracleEvals++
+	ls := fractal.NewLocalSuperior()
+	a, b := 985000, 985001
+	ls.AddTask(ctx, uuid.Nil, mkReq(a, 1, 1))
+	c := &slowColl{coll: coll{n: 1, id: uid("slow", 1)}, hold: make(chan struct{}), held: make(chan struct{}, 1)}
+	hold := c.hold
+	subDone := make(chan struct{})
+	go func() { ls.Subscribe(ctx, c); close(subDone) }()
+	select {
+	case <-c.held:
+	case <-time.After(5 * time.Second):
+		h.Fail("C17:latest-not-delivered", "a collector subscribing while a task is current was not handed it within 5 s")
+		return
+	}
+	addDone := make(chan struct{})
+	go func() { ls.AddTask(ctx, uuid.Nil, mkReq(b, 1, 2)); close(addDone) }()
+	time.Sleep(30 * time.Millisecond)
+	close(hold)
+	for _, d := range []chan struct{}{subDone, addDone} {
+		select {
+		case <-d:
+		case <-time.After(5 * time.Second):
+			h.Fail("C17:add-task-hangs", "Subscribe / AddTask overlapping a slow collector did not return within 5 s")
+			return
+		}
+	}
+	time.Sleep(50 * time.Millisecond)
+	na, nb := 0, 0
+	c.mu.Lock()
+	for _, g := range c.recv {
+		if g.task == a {
+			na++
+		}
+		if g.task == b {
+			nb++
+		}
+	}
+	c.mu.Unlock()
+	if na != 1 || nb != 1 {
+		h.Fail("C17:broadcast-count", fmt.Sprintf("a collector that subscribed while task A was current and took it slowly got A %d times and the task B broadcast meanwhile %d times (want 1 and 1)", na, nb))
+	}
+	ls.RemoveTask(taskID(a))
+	ls.RemoveTask(taskID(b))
 }
